@@ -393,8 +393,9 @@ func ruleC15Dispatch(c *Ctx) {
 				ok, why = false, "a path returns "+t.String()
 			}
 		}
-		if nNum < 12 || nStr == 0 {
-			ok, why = false, why+fmt.Sprintf(" numeric arms=%d (want 12), string arm=%d", nNum, nStr)
+		// a string operand is compared as text either by its own arm or by the textual default (%v of a string is the string)
+		if nNum < 12 || nStr+nDef == 0 {
+			ok, why = false, why+fmt.Sprintf(" numeric arms=%d (want 12), string arm=%d, textual default=%d", nNum, nStr, nDef)
 		}
 		c.Check(ok, "c15.symmetric-dispatch", k, c.P.Pos(f.Pos()), fmt.Sprintf("%d numeric arms -> Cmp(a,v); string arm and default compare text(a) first", nNum), strings.TrimSpace(why))
 	}
